@@ -133,7 +133,7 @@ def run(ctx: Ctx) -> None:
         def body(type_name, items):
             return [pai_as(x) for x in printer.block_lines(I, lambda: models.printer(I, quote=q, indent=0, end_comment=False), type_name, items)]
 
-        lfmt = repo.loc("pprint", repo.func("pprint.PrettyPrinter._format"))
+        lfmt = repo.loc("pprint", repo.func(models.fmt_qual(repo)))
         lines = body("layer", [("processing", [s1("v1"), s1("v2")])])
         good = lines == [SStr(["PROCESSING ", q, Atom("v1", first=printer.WORD, last=printer.WORD, excludes=frozenset("\"'`"), free=True), q]), SStr(["PROCESSING ", q, Atom("v2", first=printer.WORD, last=printer.WORD, excludes=frozenset("\"'`"), free=True), q])]
         ctx.check(good, "M2", f"repeated key (quote {q})", lfmt, "one quoted line per value, in order", f"PROCESSING values written as {lines!r}")
@@ -160,19 +160,19 @@ def run(ctx: Ctx) -> None:
     L = layout.Layout(e)
     for variant in L.hidden_key_probes():
         name, lines, leaked = variant
-        ctx.check(not leaked, "H1", name, repo.loc("pprint", repo.func("pprint.PrettyPrinter._format")), f"{len(lines)} lines, no hidden value", f"hidden key data reaches the output: {leaked}")
+        ctx.check(not leaked, "H1", name, repo.loc("pprint", repo.func(models.fmt_qual(repo))), f"{len(lines)} lines, no hidden value", f"hidden key data reaches the output: {leaked}")
 
     # a key that merely starts or merely ends with two underscores is an ordinary key and is printed
     I_h = e.interp(allow_fork=False)
     md = printer.kv_dict("metadata", [("__lead", SStr.atom("v1", first=printer.WORD, last=printer.WORD, excludes=frozenset("\"'`"), free=True)), ("trail__", SStr.atom("v2", first=printer.WORD, last=printer.WORD, excludes=frozenset("\"'`"), free=True))])
     lines = [pai_as(x).describe() for x in printer.block_lines(I_h, lambda: models.printer(I_h, quote='"', indent=0, end_comment=False), "layer", [("metadata", md)])]
-    ctx.check(lines == ["METADATA", '"__lead" "<v1>"', '"trail__" "<v2>"', "END"], "H1", "keys with two underscores at one end only are printed", repo.loc("pprint", repo.func("pprint.PrettyPrinter._format")), " / ".join(lines), f"a METADATA block with the keys __lead and trail__ is written as {lines}: keys that are not of the form __name__ are dropped")
+    ctx.check(lines == ["METADATA", '"__lead" "<v1>"', '"trail__" "<v2>"', "END"], "H1", "keys with two underscores at one end only are printed", repo.loc("pprint", repo.func(models.fmt_qual(repo))), " / ".join(lines), f"a METADATA block with the keys __lead and trail__ is written as {lines}: keys that are not of the form __name__ are dropped")
 
     # ---- D1 dispatch completeness -------------------------------------------------------------------
     ctx.rule("D1", "every keyword that needs its own writer (the grammar's keyword-introduced blocks, object lists, singleton blocks, repeated keywords) is written in that shape and never by the generic KEY value writer (evaluated)", 8)
     from .c19 import special_block_rules
 
-    fmt = repo.func("pprint.PrettyPrinter._format")
+    fmt = repo.func(models.fmt_qual(repo))
     shapes = printer.dispatch_shapes(e, special_block_rules(G), repo.const("tokens", "OBJECT_LIST_KEYS"), repo.const("tokens", "REPEATED_KEYS"))
     for kw, okk, desc in shapes:
         ctx.check(okk, "D1", f"{kw.upper()} is written by its own writer", repo.loc("pprint", fmt), desc, f"a {kw.upper()} value is written as {desc!r}: not the block / repeated-line shape the grammar reads back (the generic KEY value writer, or nothing, was used)")
